@@ -11,7 +11,7 @@ COQ_REQUIRE = ["M_Messaging"]
 COQ_CASE_TYPE = "M_Messaging.case"
 COQ_CHECK = "M_Messaging.check_case"
 OBLIGATIONS = ["delivered_exactly_once", "queue_sorted_by_priority", "next_takes_least",
-               "handled_in_counter_order", "fifo_per_destination_and_type", "late_registration_in_order",
+               "fifo_per_destination_and_type", "late_registration_in_order",
                "shutdown_drains", "threads_queue_discipline", "counter_race_possible"]
 N_QUICK, N_THOROUGH = 330, 5000
 SHARD = 120
